@@ -130,12 +130,13 @@ func ForEach(generate GenerateFunc, mapper ForEachFunc, opts ...Option) {
 
 // MapReduceVoid 加工所有生成的元素并聚合，但不输出结果。
 func MapReduceVoid(generate GenerateFunc, mapper MapperFunc, reducer VoidReducerFunc, opts ...Option) error {
-	_, err := MapReduce(generate, mapper, func(pipe <-chan any, writer Writer, cancel func(error)) {
+	panicChan := newOnceChan()
+	source := buildSource(generate, panicChan)
+	// void 形式“无输出”即成功（nil）；调用方传给 cancel 的错误原样返回，
+	// 即便它本身就是（或包装了）ErrReduceNoOutput
+	_, err := mapReduceWithPanicChan(source, panicChan, mapper, func(pipe <-chan any, writer Writer, cancel func(error)) {
 		reducer(pipe, cancel)
-	}, opts...)
-	if errors.Is(err, ErrReduceNoOutput) {
-		return nil
-	}
+	}, nil, opts...)
 
 	return err
 }
@@ -144,13 +145,13 @@ func MapReduceVoid(generate GenerateFunc, mapper MapperFunc, reducer VoidReducer
 func MapReduce(generate GenerateFunc, mapper MapperFunc, reducer ReducerFunc, opts ...Option) (any, error) {
 	panicChan := newOnceChan()
 	source := buildSource(generate, panicChan)
-	return mapReduceWithPanicChan(source, panicChan, mapper, reducer, opts...)
+	return mapReduceWithPanicChan(source, panicChan, mapper, reducer, ErrReduceNoOutput, opts...)
 }
 
 // MapReduceChan 加工所有给定的源数据，并聚合输出。
 func MapReduceChan(source <-chan any, mapper MapperFunc, reducer ReducerFunc, opts ...Option) (any, error) {
 	panicChan := newOnceChan()
-	return mapReduceWithPanicChan(source, panicChan, mapper, reducer, opts...)
+	return mapReduceWithPanicChan(source, panicChan, mapper, reducer, ErrReduceNoOutput, opts...)
 }
 
 // WithWorkers 自定义 mapreduce 的并行个数。
@@ -172,7 +173,8 @@ func WithContext(ctx context.Context) Option {
 }
 
 // 加工数据源中所有元素，并聚合后输出。
-func mapReduceWithPanicChan(source <-chan any, panicChan *onceChan, mapper MapperFunc, reducer ReducerFunc, opts ...Option) (any, error) {
+// noOutput 是聚合者未写入任何值时返回的错误。
+func mapReduceWithPanicChan(source <-chan any, panicChan *onceChan, mapper MapperFunc, reducer ReducerFunc, noOutput error, opts ...Option) (any, error) {
 	options := buildOptions(opts...)
 
 	// out 用于写入最终结果；它从不关闭（关闭会与聚合者的写入竞争），结束以 done 为准
@@ -261,7 +263,7 @@ func mapReduceWithPanicChan(source <-chan any, panicChan *onceChan, mapper Mappe
 		if err := retErr.Load(); err != nil {
 			return nil, err
 		}
-		return nil, ErrReduceNoOutput
+		return nil, noOutput
 	}
 }
 
